@@ -462,7 +462,32 @@ def rule_l7(ctx):
     rep.floor('eager materialisers', n, 4)
 
 
+def rule_l8(ctx):
+    """the look-ahead of the prefetching / parallel stages is the configured buffer: every hand-over to the two
+    helpers passes self.buffer_size (the bound itself is C07)"""
+    rep = ctx.report
+    pu = ctx.repo.module('parallel_utils')
+    n = 0
+    for cname in ('core.ParMapDataset', 'core.PrefetchDataset'):
+        cls = ctx.repo.cls(cname)
+        for mname, mem in cls.members.items():
+            if not mem.is_function:
+                continue
+            for c in A.walk_local(mem.node):
+                if isinstance(c, ast.Call) and A.dotted(c.func) in ('lazy_parallel_map', 'single_thread_prefetch'):
+                    n += 1
+                    b = flow.bind(c, pu.functions[A.dotted(c.func)], skip_self=False)
+                    e = b.args.get('buffer_size')
+                    ok = A.is_self_attr(e, 'buffer_size')
+                    rep.ob('L8', K.key(cls, mname, 'read-ahead-is-the-configured-buffer(%s)' % A.dotted(c.func)), ok, c,
+                           '' if ok else 'the helper is started with buffer_size=%s instead of self.buffer_size: user functions '
+                           'run further ahead of the consumer than the configured prefetch buffer' % (
+                               A.short(e) if e is not None else 'its own default'))
+    rep.floor('helper hand-over sites', n, 5)
+
+
 def run(ctx):
+    rule_l8(ctx)
     rule_l7(ctx)
     rule_l6(ctx)
     rule_l1(ctx)
